@@ -30,6 +30,9 @@ mod scheduler;
 #[cfg(feature = "test-utils")]
 pub mod test_utils;
 mod tx_dependency;
+#[cfg(feature = "verif-hooks")]
+#[allow(missing_docs, unreachable_pub, missing_debug_implementations)]
+pub mod verif;
 
 pub(crate) use model::{
     AbortReason, AccountBasic, LocationAndType, MVMemory, MemoryEntry, MemoryValue, ReadVersion,
